@@ -55,7 +55,9 @@ static Plan gen_grid(Rng rng, uint64_t run) {
     Gen G(rng);
     int kind = INIT_KINDS[run % 6]; int model = (int)((run / 6) % g_grid.size());
     int s = G.add_slot(kind);
-    for (int rep = 0; rep < 3; ++rep) { G.init(s, 3 + model, 0, G.r.below(3)); G.p.ops.back().flags |= F_JUNKREGS; G.cleanup(s); }
+    // three inits per cell in different junk register/stack contexts; the third one under memory pressure (its first
+    // allocation fails): if an implementation then still reports success, the back end must nevertheless be the widest one
+    for (int rep = 0; rep < 3; ++rep) { G.init(s, 3 + model, rep == 2 ? 1 : 0, G.r.below(3)); G.p.ops.back().flags |= F_JUNKREGS; G.cleanup(s); }
     return G.p;
 }
 
@@ -167,6 +169,7 @@ static Outcome evaluate(const PropDef &pd, const Plan &plan, uint64_t seed, uint
         bool wide = false; for (int k : plan.slots) wide |= (k == CTR128 || k == P128);
         RunResult r[3]; int nh = wide ? 3 : 2;
         static const char *hn[] = {"host-generic", "host-sse2", "host-avx2"};
+        c.allow_odd = true;
         for (int h = 0; h < nh; ++h) { c.cpu_override = h; r[h] = execute(plan, c); absorb(r[h], hn[h]); if (!r[h].viol.empty()) return O; }
         for (int h = 1; h < nh; ++h) {
             std::string what; int at = first_obs_diff(plan, r[0], r[h], false, true, &what);
